@@ -53,12 +53,12 @@ Proof. split; [simpl; repeat split; reflexivity|vm_compute; reflexivity]. Qed.
    scanning its series batch after batch with the incremental model above (the scanner state
    persists between batches), the function applied to every window. For every function, shard
    count, batch size, window (instant or range), range >= 0 and offset, each step vector is the
-   function applied to the specification window of every series (MatrixRun.v). *)
+   function applied to the window's end and the specification window of every series (MatrixRun.v). *)
 From Verif Require Grid Shard MatrixRun.
 Theorem C03_matrix_selector_operator : forall (fn : Z -> list Range.point -> option Z) range off N B w sers,
   (0 < N)%nat -> (0 < B)%nat -> wf_window w -> 0 <= range -> Forall sorted_ts sers ->
   MatrixRun.sharded_matrix fn range off (w_step w) N sers (Grid.selector_batches B w) =
-  map (map (fun t => Select.stepvec_of t (map (fun ss => fn t (window_at range off ss t)) sers))) (Grid.selector_batches B w).
+  map (map (fun t => Select.stepvec_of t (map (fun ss => fn (t - off) (window_at range off ss t)) sers))) (Grid.selector_batches B w).
 Proof. exact MatrixRun.sharded_matrix_spec. Qed.
 Print Assumptions C03_matrix_selector_operator.
 
